@@ -36,6 +36,18 @@ needs = {
  "C15-D": "ε-copy mode and a foreign tag on a sum type nested inside Option::Some (payload errors are turned into None)",
  "C19-C": "a read (even of an empty buffer) while the position is strictly past the end, then an observation of the position or a write",
  "C19-D": "a base position or seek result above i64::MAX (relative seeks computed in i64; stream_position override removed)",
+ "C08-E": "two sites (a shared read_zero_extended helper that zeroes to 16, load_mem's capacity rounded to 64): load_mem only, file length residue 1..=48 mod 64, a recycled non-zero heap block, someone reading the tail",
+ "C08-F": "load_full only; a document containing a 32- or 64-byte aligned zero-copy struct at a stream position that needs more than 16 bytes of padding (stack buffer of 16 bytes for skipping padding)",
+ "C08-G": "load_mmap with a file length that is a multiple of 16 returns a private mapping of the file instead of a copy: needs the sequence load, rewrite the file in place, read (a truncating rewrite gives SIGBUS)",
+ "C08-H": "load_mem, residue 1..=48 mod 64 and a dirty heap block obtained by a sequence (load a file of non-zero bytes, drop it, load a shorter file of the same rounded size)",
+ "C09-E": "the mmap() loader only, and a load that fails by panicking (payload cut inside a zero-copy vector) with a caller that survives the panic",
+ "C09-F": "the no-mmap feature configuration only (Drop of the backend guard gated on feature = mmap): any failing load_mem after the file was read",
+ "C09-G": "field order of MemCase swapped (backend declared before the structure): needs a client structure whose Drop reads its borrowed data; with load_mem the stale read even succeeds unless freed memory is poisoned",
+ "C09-H": "load_mem frees its buffer twice when the read fails after metadata(), open() and the allocation succeeded (directory path, file shrunk, injected EIO)",
+ "C13-E": "one library-level write split into three or more pieces by a writer returning short counts (second short write of the same buffer skips bytes or panics)",
+ "C13-F": "store() only, three cooperating sites: a value smaller than the 8 KiB buffer stored on a failing device (/dev/full) returns Ok because only BufWriter's drop flushes",
+ "C14-E": "a short read followed by ErrorKind::Interrupted inside the same request (the fill loop treats Interrupted as fatal)",
+ "C14-F": "a reader failure inside the payload of a [T; N] of deep-copy items: the guard counts the slot before it is written and drops an uninitialised stack slot",
 }
 confirm = {}
 matrix = {}
